@@ -229,7 +229,10 @@ def check(kind, kw, v, text):
     if kind == "fraction":
         return check_fraction(kw, v, text)
     if kind == "rating":
-        if text != "★" * int(v):
+        # the number of stars is the value rounded to a whole number (either tie rule)
+        if set(text) - {"★"}:
             raise Bad("stars", f"rating text {text!r} for value {v!r}")
-        return Fraction(int(v))
+        if abs(Fraction(len(text)) - exact(v)) > Fraction(1, 2):
+            raise Bad("stars", f"rating text {text!r} shows {len(text)} stars for value {v!r}")
+        return Fraction(len(text))
     raise ValueError(kind)
